@@ -114,8 +114,32 @@ class CHECK(Check):
 
     def setup(self, tier, seed):
         self.tier, self.seed = tier, seed
-        self.dbs = sqlref.databases(tier)
+        self.init_dbs(tier)
         self.cons = None
+
+    def init_dbs(self, tier):
+        """thorough: all databases for cases with <= 2 non-default features, the quick database set for cases with 3"""
+        self.dbs = sqlref.databases(tier)
+        self.narrow = None
+        self.active = None
+        if tier == 'thorough':
+            keyf = lambda db: repr(sorted(db.items()))
+            pos = {keyf(db): i for i, db in enumerate(self.dbs)}
+            self.narrow = []
+            for db in sqlref.databases('quick'):
+                k = keyf(db)
+                if k not in pos:
+                    pos[k] = len(self.dbs)
+                    self.dbs.append(db)
+                self.narrow.append(pos[k])
+
+    def db_iter(self):
+        idx = self.active if self.active is not None else range(len(self.dbs))
+        for i in idx:
+            yield self.cons[i], self.dbs[i]
+
+    def choose_dbs(self, nondefault):
+        self.active = self.narrow if (self.narrow is not None and nondefault > 2) else None
 
     def cases(self):
         d = 3 if self.tier == 'thorough' else 2
@@ -172,7 +196,7 @@ class CHECK(Check):
                           f'{sql!r} [{cat}]: fetch query {str(fq)!r} is not the original minus the qualifier (first difference at {fp_diff(exp, got)})'))
         self.ensure()
         bad = None
-        for con, db in zip(self.cons, self.dbs):
+        for con, db in self.db_iter():
             ref_full = sqlref.run(con, full)
             ref = sqlref.run(con, sql)
             if ref[0] != 'rows' or ref_full[0] != 'rows':
@@ -215,6 +239,7 @@ class CHECK(Check):
         kind, payload, cat = case
         if kind == 'negative':
             return self.run_negative(res, payload)
+        self.choose_dbs(sum(1 for v in payload if v) if kind == 'model' else 0)
         if kind == 'extra':
             sql = dict(EXTRA)[payload]
             res.key((sql, cat))
@@ -264,7 +289,7 @@ class CHECK(Check):
         return res
 
     def coverage(self, agg):
-        return {'exhaustive': True, 'databases': len(self.dbs), 'extra_shapes': [e[0] for e in EXTRA], 'negative_shapes': [n[0] for n in NEGATIVE],
+        return {'exhaustive': True, 'databases': len(self.dbs), 'databases_used_for_cases_with_3_deviations': len(self.narrow) if self.narrow is not None else len(self.dbs), 'extra_shapes': [e[0] for e in EXTRA], 'negative_shapes': [n[0] for n in NEGATIVE],
                 'rule': 'C06 SELECT feature model restricted to integration int1 (<= d non-default features + full products) x catalogs, 22 alias/qualifier/star '
                         'shapes x 3 catalogs, 14 negative shapes; every fetch executed on every database; distinct_nontrivial = distinct (SQL, catalog)'}
 
